@@ -111,6 +111,20 @@ inductive PyMembers where
   | cons (k : Str) (v : PyVal) (t : PyMembers)
 end
 
+/-- a `datetime.timedelta` (CPython keeps it normalised: any `days`, `0 ≤ seconds < 86400`,
+`0 ≤ microseconds < 10^6`; a negative duration has negative `days`) -/
+structure TimeDelta where
+  days : Int
+  seconds : Int
+  microseconds : Int
+  deriving DecidableEq, Repr
+
+/-- CPython `timedelta.total_seconds()` is `((days * 86400 + seconds) * 10**6 + microseconds) / 10**6`
+(one true division): this is its exact integer numerator, in microseconds (modelled, not verified;
+the harness compares the implementation with `total_seconds()` of the record's own value). -/
+def TimeDelta.totalMicros (td : TimeDelta) : Int :=
+  (td.days * 86400 + td.seconds) * 1000000 + td.microseconds
+
 /-- `None if x is None else x.__name__` and similar optional strings -/
 def optStr : Option Str → PyVal
   | Option.none => .none
